@@ -120,9 +120,14 @@ def gen_num_operand(rng, shape, item=(), cls='Scalar', unit=None, rep=None, dran
     isz = int(np.prod(item))
     vals = [[rng.choice([-1, 0, 0, 1, 1, 2]) for _ in range(isz)] for _ in range(n)]
     mask = make_mask(rng, shape, rep)
+    isfloat = rng.random() < 0.5
+    if isfloat and rng.random() < 0.4:
+        # fractional values: a float operand compared with an integer one must be compared as given, not after a
+        # cast to the integer kind (seeded change C14-F); halves, so that the model can hold them doubled
+        vals = [[x + rng.choice([0, 0.5, 0.5, -0.5]) for x in row] for row in vals]
     return {'cls': cls, 'shape': list(shape), 'item': list(item), 'vals': vals,
             'mask': mask if isinstance(mask, bool) else [bool(x) for x in np.asarray(mask).ravel()],
-            'mrep': rep, 'unit': unit, 'float': rng.random() < 0.5, 'drank': drank}
+            'mrep': rep, 'unit': unit, 'float': isfloat, 'drank': drank}
 
 
 def build_num(d, Pm):
@@ -146,7 +151,7 @@ def _build_num(d, Pm):
 
 def coq_nobj(obj, d):
     vals = np.asarray(obj._values_).reshape((-1, int(np.prod(obj.item)))) if obj.size else []
-    items = [clist([cZ(int(round(x))) for x in row], 'Z') for row in vals]
+    items = [clist([cZ(int(round(2 * float(x)))) for x in row], 'Z') for row in vals]    # doubled: halves are exact
     u = UEXP[d['unit']]
     ut = copt('(%s, %s, %s)' % tuple(cZ(x) for x in u), '(Z*Z*Z)') if u else copt(None, '(Z*Z*Z)')
     return '(mknL %s %s %s (%s) %s)' % (cshape(obj.shape), cshape(obj.item),
@@ -327,6 +332,15 @@ def gen_cases(rng, tier):
             b = gen_num_operand(rng, sb, item2, cls2, ub, drank=drank2)
             if rng.random() < 0.15:      # identical operand (reflexivity), possibly copied mask
                 b = dict(a)
+            elif rng.random() < 0.25 and not drank2:
+                # the right operand is not an object of the left one's class: a number / list / ndarray, or a sibling
+                # class with the same items (it is converted before the comparison: seeded change C14-F)
+                if (cls2, tuple(item2)) == (cls, tuple(item)) and \
+                        (b['mask'] is False or (isinstance(b['mask'], list) and not any(b['mask']))):
+                    b = dict(b, raw=rng.choice(['list', 'nd', 'num'] if not (sb or item2) else ['list', 'nd']), unit=None)
+                sib = {('Vector', (2,)): 'Pair', ('Pair', (2,)): 'Vector', ('Vector', (3,)): 'Vector3'}.get((cls2, tuple(item2)))
+                if sib and 'raw' not in b and rng.random() < 0.6:
+                    b = dict(b, cls=sib)
             k = rng.random()
             if drank and 0.35 <= k < 0.8:
                 cases.append({'kind': rng.choice(['cmp', 'tvlcmp']), 'op': rng.choice(['eq', 'ne']), 'a': a, 'b': b})
@@ -338,6 +352,31 @@ def gen_cases(rng, tier):
                 cases.append({'kind': 'tvlcmp', 'op': rng.choice(CMPS), 'a': a, 'b': b})
             else:
                 cases.append({'kind': 'truth', 'op': rng.choice(['eq', 'ne']), 'a': a, 'b': b})
+    # kind core: an integer object against the same numbers plus one half somewhere, given as number / list / ndarray /
+    # object of the same or of a sibling class: equal only where the numbers are equal (seeded change C14-F)
+    for cls, item, shape in [('Scalar', (), ()), ('Scalar', (), (3,)), ('Vector', (3,), ()), ('Vector', (3,), (2,)),
+                             ('Pair', (2,), (2,)), ('Vector', (2,), (2,))]:
+        n, isz = int(np.prod(shape)), int(np.prod(item))
+        ivals = [[rng.choice([-1, 0, 1, 2]) for _ in range(isz)] for _ in range(n)]
+        fvals = [[float(x) for x in row] for row in ivals]
+        fvals[-1][-1] += 0.5
+        for raw in (None, 'list', 'nd', 'num', 'sib'):
+            if raw == 'num' and (shape or item):
+                continue
+            a = {'cls': cls, 'shape': list(shape), 'item': list(item), 'vals': ivals, 'mask': False, 'mrep': 'F',
+                 'unit': None, 'float': False, 'drank': 0}
+            b = dict(a, vals=fvals, float=True)
+            if raw == 'sib':
+                sib = {('Vector', (2,)): 'Pair', ('Pair', (2,)): 'Vector', ('Vector', (3,)): 'Vector3'}.get((cls, item))
+                if not sib:
+                    continue
+                b['cls'] = sib
+            elif raw:
+                b['raw'] = raw
+            for kind, op in (('cmp', 'eq'), ('cmp', 'ne'), ('tvlcmp', 'eq'), ('truth', 'eq'), ('truth', 'ne')):
+                cases.append({'kind': kind, 'op': op, 'a': a, 'b': b})
+                if not raw:
+                    cases.append({'kind': kind, 'op': op, 'a': b, 'b': a})
     # a fraction of the operands is REACHED THROUGH A HISTORY (harness/hist.py: cached views asked for, then an
     # in-place operation / assignment that brings the object to the described content) - seeded change C14-D
     for c in cases:
@@ -456,10 +495,15 @@ def run_case(c, Pm):
             else:
                 a, b = build_num(c['a'], Pm), build_num(c['b'], Pm)
                 op = c['op']
+                b_call = b
+                raw = c['b'].get('raw')
+                if raw:
+                    v = np.asarray(b._values_)
+                    b_call = v.tolist() if raw == 'list' else (v.copy() if raw == 'nd' else v.item())
                 plain = ref_cmp(op, c['a'], c['b'], a, b)
                 if plain is None:
                     res['ref'] = None
-                    res['impl'] = observe(PYCMP[op](a, b), Pm)
+                    res['impl'] = observe(PYCMP[op](a, b_call), Pm)
                     if res['impl'][0] not in ('bool', 'arr'):
                         res['ref'] = ('bool', op == 'ne')
                     return res
@@ -473,7 +517,7 @@ def run_case(c, Pm):
                             res['coq'] = '(CNe %s %s)' % (coq_nobj(a, c['a']), coq_nobj(b, c['b']))
                         elif c['a']['cls'] == 'Scalar':
                             res['coq'] = '(COrd %s %s %s)' % (COQCMP[op], coq_nobj(a, c['a']), coq_nobj(b, c['b']))
-                    res['impl'] = observe(PYCMP[op](a, b), Pm)
+                    res['impl'] = observe(PYCMP[op](a, b_call), Pm)
                 elif kind == 'tvlcmp':
                     if plain[0] == 'err':
                         res['ref'] = plain
@@ -494,7 +538,7 @@ def run_case(c, Pm):
                             res['ref'] = None
                     if same_cls and (op in ('eq', 'ne') or c['a']['cls'] == 'Scalar') and res.get('ref'):
                         res['coq'] = '(CTvlCmp %s %s %s)' % (cnat(CMPS.index(op)), coq_nobj(a, c['a']), coq_nobj(b, c['b']))
-                    res['impl'] = observe(getattr(a, 'tvl_' + op)(b), Pm)
+                    res['impl'] = observe(getattr(a, 'tvl_' + op)(b_call), Pm)
                 elif kind == 'truth':
                     if plain[0] == 'bool':
                         res['ref'] = plain
@@ -503,7 +547,7 @@ def run_case(c, Pm):
                         res['ref'] = ('bool', all(vals) if op == 'eq' else any(vals))
                     if same_cls:
                         res['coq'] = '(CTruth %s %s %s)' % (cnat(0 if op == 'eq' else 1), coq_nobj(a, c['a']), coq_nobj(b, c['b']))
-                    res['impl'] = ('bool', bool(PYCMP[op](a, b)))
+                    res['impl'] = ('bool', bool(PYCMP[op](a, b_call)))
         except Exception as e:       # noqa
             name, site = lib.exc_family(e)
             res['impl'] = ('exc', name, site)
